@@ -1,1 +1,5 @@
 import SmtpV.Props.C05
+#print axioms SmtpV.Props.C05.C05_frame_any_source
+#print axioms SmtpV.Props.C05.C05_refused_chunk_discarded
+#print axioms SmtpV.Props.C05.C05_segmentation_independent
+#print axioms SmtpV.Props.C05.C05_failed_chunk_skipped
